@@ -48,9 +48,9 @@ XL = ("e", 16)
 
 @st.composite
 def _pair_case(draw, target):
-    routes = {"GULP": ["class", "writePotentials", "potable"], "excel": ["class", "potable"]}[target]
+    routes = {"GULP": ["class", "writePotentials", "potable", "main"], "excel": ["class", "potable", "main"]}[target]
     route = draw(st.sampled_from(routes))
-    m = draw(gen.pair_model(3, 1, pycallables=(route != "potable")))
+    m = draw(gen.pair_model(3, 1, pycallables=(route not in ("potable", "main"))))
     cutoff, nr = draw(gen.grid_rc(30, 2))
     m.update({"target": target, "route": route, "cutoff": cutoff, "nr": nr,
               "container": draw(st.sampled_from(["list", "tuple", "iterator", "generator"]))})
@@ -60,8 +60,8 @@ def _pair_case(draw, target):
 @st.composite
 def _eam_case(draw, target):
     kind = {"eam_adp": "adp", "excel_eam": "eam", "excel_eam_fs": "fs"}[target]
-    route = draw(st.sampled_from(["class", "potable"]))
-    m = draw(gen.eam_model(kind, 1, 3, depth=1, pycallables=(route != "potable")))
+    route = draw(st.sampled_from(["class", "potable", "main"]))
+    m = draw(gen.eam_model(kind, 1, 3, depth=1, pycallables=(route not in ("potable", "main"))))
     m.update({"target": target, "route": route})
     return m
 
@@ -116,11 +116,23 @@ def budget(tier):
     return {"examples": 700, "shards": 16}
 
 
+def _potable(text, route, target):
+    """the table through Configuration.read(...).write(), or through potable's own main() writing into an
+    output path that already holds a longer file"""
+    if route == "potable":
+        return libroute.write_text(libroute.read_text(text))
+    binary = target.startswith("excel")
+    res = libroute.run_potable_main([], text, outname="out.xlsx" if binary else "out.tab")
+    if res["rc"] != 0 or res["out"] is None:
+        raise RuntimeError("potable main() failed: rc=%r %s" % (res["rc"], res["stderr"][-300:]))
+    return res["out"] if binary else res["out"].decode()
+
+
 # ---- GULP -----------------------------------------------------------------
 def _check_gulp(m, cls):
     cutoff, nr, route = m["cutoff"], m["nr"], m["route"]
     ctx = pairtab.potable_text(m, "GULP", {"cutoff": cutoff, "nr": nr})
-    rk = "potable" if route == "potable" else "api"
+    rk = "potable" if route in ("potable", "main") else "api"
     ref = model.Ref(m["env"])
     step = cutoff / float(nr - 1)
     want = []
@@ -128,8 +140,8 @@ def _check_gulp(m, cls):
         pd = pairtab.for_route(pd, rk)
         want.append((a, b, pd, [None if eamtab.near_boundary(ref, pd, i * step) else eamtab.ref_value(ref, pd, i * step)
                                 for i in range(nr)]))
-    if route == "potable":
-        out = libroute.write_text(libroute.read_text(ctx))
+    if route in ("potable", "main"):
+        out = _potable(ctx, route, m["target"])
     else:
         rt = m.get("_rt")
         pots = rt["objs"] if rt else pairtab.api_potentials(m, m.get("container", "list"))
@@ -226,13 +238,13 @@ def _check_excel_pair(m, cls):
     # two potentials for the same unordered pair share one column label: outside this property (C20)
     keys = [frozenset((a, b)) for a, b, _ in m["pair"]]
     ctx = pairtab.potable_text(m, "excel", {"cutoff": cutoff, "nr": nr})
-    rk = "potable" if route == "potable" else "api"
+    rk = "potable" if route in ("potable", "main") else "api"
     ref = model.Ref(m["env"])
     for a, b, pd in m["pair"]:
         for i in compare.sample_rows(nr):
             eamtab.ref_value(ref, pairtab.for_route(pd, rk), i * cutoff / float(nr - 1))
-    if route == "potable":
-        out = libroute.write_text(libroute.read_text(ctx))
+    if route in ("potable", "main"):
+        out = _potable(ctx, route, m["target"])
     else:
         fp = io.BytesIO()
         Excel_PairTabulation(pairtab.api_potentials(m), cutoff, nr).write(fp)
@@ -254,9 +266,9 @@ def _check_excel_eam(m, cls):
     ref = model.Ref(m["env"])
     from checks import c05_tabeam
     c05_tabeam._domain(m, ref)
-    rk = "potable" if route == "potable" else "api"
-    if route == "potable":
-        out = libroute.write_text(libroute.read_text(ctx))
+    rk = "potable" if route in ("potable", "main") else "api"
+    if route in ("potable", "main"):
+        out = _potable(ctx, route, m["target"])
     else:
         pairs, eams = eamtab.api_objects(m)
         cl = Excel_FinnisSinclair_EAMTabulation if fs else Excel_EAMTabulation
@@ -321,8 +333,8 @@ def _check_adp(m, cls):
                 pass
     api_order = None
     v = []
-    if route == "potable":
-        out = libroute.write_text(libroute.read_text(ctx))
+    if route in ("potable", "main"):
+        out = _potable(ctx, route, m["target"])
     else:
         rt = m.get("_rt")
         pairs, eams, dip, quad = rt["objs"] if rt else eamtab.api_objects(m)
